@@ -19,7 +19,7 @@ def plan(tier):
     n = 480 if tier == 'quick' else 6000
     return dict(sanitize={'extensions': ['compmech.panel.models.clt_bardell_field', 'compmech.panel.models.clt_bardell_field_w'], 'n_cases': 160}, n_cases=n, shards=16, min_nontrivial=n // 3,
                 min_tags={'obj:panel': n // 3, 'obj:assembly': n // 12, 'obj:bay': n // 12, 'NLterms:on': n // 8, 'NLterms:off': n // 8,
-                          'model:cpanel': n // 10, 'model:plate_w': n // 30, 'order:fresh': n // 6},
+                          'model:cpanel': n // 10, 'model:plate_w': n // 30, 'order:fresh': n // 6, 'clause:redefined': n // 12},
                 watchdog_s=1800 if tier == 'quick' else 10000,
                 rule='40% of the objects fresh (field queries are the first calls), the others after calc_k0; stress judged with the laminate matrix of the description; random amplitude vectors (dense / single-term / w-only / in-plane only), point sets scattered, gridded, on edges and '
                      'corners, 1..200 points incl. primes and counts below the thread count, thread counts 1..16, flat / w-only / cylindrical '
@@ -260,6 +260,36 @@ def case_panel(rng, tier):
             st = p.strain(cvec, xs=xs[perm].copy(), ys=ys[perm].copy(), NLterms=NL)
             E4 = np.array([st[kk].ravel() for kk in ('exx', 'eyy', 'gxy', 'kxx', 'kyy', 'kxy')])
             c.expect('strain: shuffling the points permutes the outputs', np.array_equal(E4, res[NL][:, perm]))
+    # the same object after a redefinition (an edge flag, a dimension, the radius reassigned), queried again with the SAME
+    # amplitudes and points: the fields are those of the panel as defined now
+    if rng.random() < 0.4:
+        c.tag('clause:redefined')
+        # the last thing asked before the redefinition is exactly what is asked first afterwards
+        p.uvw(cvec, xs=xs, ys=ys)
+        if num == 3:
+            if rng.random() < 0.5:
+                p.stress(cvec, xs=xs, ys=ys, NLterms=False)
+            else:
+                p.strain(cvec, xs=xs, ys=ys, NLterms=False)
+        d2 = dict(d); d2['flags'] = dict(d['flags'])
+        what = str(rng.choice(['flag', 'flag', 'a', 'b', 'radius']))
+        if what == 'radius' and 'r' not in d:
+            what = 'flag'
+        if what == 'flag':
+            comp = 'w' if num == 1 else str(rng.choice(['u', 'v', 'w']))
+            k_ = '%s%s%s%s' % (comp, str(rng.choice(['1', '2'])), str(rng.choice(['t', 'r'])), str(rng.choice(['x', 'y'])))
+            d2['flags'][k_] = 0.0 if d['flags'].get(k_, 1.0) else 1.0
+            setattr(p, k_, d2['flags'][k_])
+        elif what in ('a', 'b'):
+            # points stay where they are: shrink never, so that they remain inside the domain
+            d2[what] = d[what] * float(rng.uniform(1.0, 2.5))
+            setattr(p, what, d2[what])
+        else:
+            d2['r'] = d['r'] * float(rng.uniform(0.4, 2.5))
+            p.r = d2['r']
+        c.desc['redefinition'] = what
+        c.tag('redef:' + what)
+        judge_fields(c, p, d2, cvec, xs, ys, num, label='after redefinition (%s): ' % what)
     return c
 
 
